@@ -358,3 +358,118 @@ Proof.
   rewrite (boundary_inside (skipn a l) n x) in Hb; [exact Hb| |lia].
   now rewrite nth_error_skipn.
 Qed.
+
+(* ------------------------------------------------------------------ 5. scalar values *)
+Local Ltac dlia := Z.div_mod_to_equations; lia.
+
+Lemma scalar_true c : scalar c = true <-> 0 <= c <= 55295 \/ 57344 <= c <= 1114111.
+Proof. unfold scalar. rewrite orb_true_iff, !inr_true. tauto. Qed.
+
+(* the encoding of a scalar value is one well-formed sequence *)
+Lemma encode_scalar_wf c : scalar c = true -> wf (encode_scalar c).
+Proof.
+  intros Hs. apply scalar_true in Hs. unfold encode_scalar.
+  destruct (Z.ltb_spec c 128); [apply wf_1; [apply inr_true; lia|constructor]|].
+  destruct (Z.ltb_spec c 2048).
+  { apply wf_2; [apply inr_true; dlia|apply cont_true; dlia|constructor]. }
+  destruct (Z.ltb_spec c 65536).
+  { apply wf_3; [apply inr_true; dlia| |apply cont_true; dlia|constructor].
+    unfold snd3. destruct (Z.eqb_spec (224 + c / 4096) 224); [apply inr_true; dlia|].
+    destruct (Z.eqb_spec (224 + c / 4096) 237); [apply inr_true; dlia|apply cont_true; dlia]. }
+  apply wf_4; [apply inr_true; dlia| |apply cont_true; dlia|apply cont_true; dlia|constructor].
+  unfold snd4. destruct (Z.eqb_spec (240 + c / 262144) 240); [apply inr_true; dlia|].
+  destruct (Z.eqb_spec (240 + c / 262144) 244); [apply inr_true; dlia|apply cont_true; dlia].
+Qed.
+
+Lemma encode_scalar_valid c : scalar c = true -> valid (encode_scalar c) = true.
+Proof. intros H. apply valid_wf. now apply encode_scalar_wf. Qed.
+
+(* decoding: each well-formed sequence is the encoding of a scalar value *)
+Lemma dec1 b0 : inr 0 127 b0 = true -> scalar b0 = true /\ encode_scalar b0 = [b0].
+Proof.
+  intros H0. apply inr_true in H0. split; [apply scalar_true; lia|].
+  unfold encode_scalar. destruct (Z.ltb_spec b0 128); [reflexivity|lia].
+Qed.
+
+Lemma dec2 b0 b1 : inr 194 223 b0 = true -> cont b1 = true ->
+  let c := (b0 - 192) * 64 + (b1 - 128) in
+  scalar c = true /\ encode_scalar c = [b0; b1].
+Proof.
+  intros H0 H1 c. apply inr_true in H0. apply cont_true in H1.
+  assert (128 <= c < 2048) as Hc by (subst c; lia).
+  split; [apply scalar_true; lia|].
+  unfold encode_scalar. destruct (Z.ltb_spec c 128); [lia|]. destruct (Z.ltb_spec c 2048); [|lia].
+  assert (c / 64 = b0 - 192) as -> by (subst c; dlia).
+  assert (c mod 64 = b1 - 128) as -> by (subst c; dlia).
+  f_equal; [lia|f_equal; lia].
+Qed.
+
+Lemma dec3 b0 b1 b2 : inr 224 239 b0 = true -> snd3 b0 b1 = true -> cont b2 = true ->
+  let c := (b0 - 224) * 4096 + (b1 - 128) * 64 + (b2 - 128) in
+  scalar c = true /\ encode_scalar c = [b0; b1; b2].
+Proof.
+  intros H0 H1 H2 c. pose proof (snd3_cont _ _ H1) as H1c.
+  apply inr_true in H0. apply cont_true in H1c. apply cont_true in H2.
+  assert (2048 <= c < 65536 /\ (c <= 55295 \/ 57344 <= c)) as Hc.
+  { unfold snd3 in H1. destruct (Z.eqb_spec b0 224); [apply inr_true in H1; subst c; lia|].
+    destruct (Z.eqb_spec b0 237); [apply inr_true in H1; subst c; lia|subst c; lia]. }
+  split; [apply scalar_true; lia|].
+  unfold encode_scalar. destruct (Z.ltb_spec c 128); [lia|]. destruct (Z.ltb_spec c 2048); [lia|].
+  destruct (Z.ltb_spec c 65536); [|lia].
+  assert (c / 4096 = b0 - 224) as -> by (subst c; dlia).
+  assert ((c / 64) mod 64 = b1 - 128) as -> by (subst c; dlia).
+  assert (c mod 64 = b2 - 128) as -> by (subst c; dlia).
+  repeat (f_equal; try lia).
+Qed.
+
+Lemma dec4 b0 b1 b2 b3 : inr 240 244 b0 = true -> snd4 b0 b1 = true -> cont b2 = true ->
+  cont b3 = true ->
+  let c := (b0 - 240) * 262144 + (b1 - 128) * 4096 + (b2 - 128) * 64 + (b3 - 128) in
+  scalar c = true /\ encode_scalar c = [b0; b1; b2; b3].
+Proof.
+  intros H0 H1 H2 H3 c. pose proof (snd4_cont _ _ H1) as H1c.
+  apply inr_true in H0. apply cont_true in H1c. apply cont_true in H2. apply cont_true in H3.
+  assert (65536 <= c <= 1114111) as Hc.
+  { unfold snd4 in H1. destruct (Z.eqb_spec b0 240); [apply inr_true in H1; subst c; lia|].
+    destruct (Z.eqb_spec b0 244); [apply inr_true in H1; subst c; lia|subst c; lia]. }
+  split; [apply scalar_true; lia|].
+  unfold encode_scalar. destruct (Z.ltb_spec c 128); [lia|]. destruct (Z.ltb_spec c 2048); [lia|].
+  destruct (Z.ltb_spec c 65536); [lia|].
+  assert (c / 262144 = b0 - 240) as -> by (subst c; dlia).
+  assert ((c / 4096) mod 64 = b1 - 128) as -> by (subst c; dlia).
+  assert ((c / 64) mod 64 = b2 - 128) as -> by (subst c; dlia).
+  assert (c mod 64 = b3 - 128) as -> by (subst c; dlia).
+  repeat (f_equal; try lia).
+Qed.
+
+Lemma wf_scalars l : wf l ->
+  exists cs, Forall (fun c => scalar c = true) cs /\ l = encode_scalars cs.
+Proof.
+  induction 1 as [|b0 t H0 _ [cs [Hcs ->]]|b0 b1 t H0 H1 _ [cs [Hcs ->]]
+                 |b0 b1 b2 t H0 H1 H2 _ [cs [Hcs ->]]|b0 b1 b2 b3 t H0 H1 H2 H3 _ [cs [Hcs ->]]].
+  - exists []. split; [constructor|reflexivity].
+  - destruct (dec1 b0 H0) as [Hs He]. exists (b0 :: cs). split; [now constructor|].
+    unfold encode_scalars. cbn [map concat]. now rewrite He.
+  - destruct (dec2 b0 b1 H0 H1) as [Hs He]. eexists (_ :: cs). split; [constructor; eassumption|].
+    unfold encode_scalars. cbn [map concat]. now rewrite He.
+  - destruct (dec3 b0 b1 b2 H0 H1 H2) as [Hs He]. eexists (_ :: cs).
+    split; [constructor; eassumption|].
+    unfold encode_scalars. cbn [map concat]. now rewrite He.
+  - destruct (dec4 b0 b1 b2 b3 H0 H1 H2 H3) as [Hs He]. eexists (_ :: cs).
+    split; [constructor; eassumption|].
+    unfold encode_scalars. cbn [map concat]. now rewrite He.
+Qed.
+
+Lemma scalars_wf cs : Forall (fun c => scalar c = true) cs -> wf (encode_scalars cs).
+Proof.
+  induction 1 as [|c cs Hc _ IH]; [constructor|].
+  unfold encode_scalars. cbn [map concat]. apply wf_app; [now apply encode_scalar_wf|exact IH].
+Qed.
+
+(* THE CHARACTERISATION: the DFA accepts exactly the concatenations of encodings of Unicode
+   scalar values (surrogates excluded, nothing above 10FFFF, shortest form only) *)
+Theorem valid_iff_scalars l :
+  valid l = true <-> exists cs, Forall (fun c => scalar c = true) cs /\ l = encode_scalars cs.
+Proof.
+  rewrite valid_wf. split; [apply wf_scalars|]. intros [cs [Hcs ->]]. now apply scalars_wf.
+Qed.
